@@ -205,8 +205,8 @@ impl Property for C14 {
 
     fn runs(tier: Tier) -> u64 {
         match tier {
-            Tier::Quick => 60_000,
-            Tier::Thorough => 6_000_000,
+            Tier::Quick => 100_000,
+            Tier::Thorough => 10_000_000,
         }
     }
 
